@@ -50,6 +50,22 @@ namespace c07
   typedef long double LD;
 
   // ==========================================================================================
+  // sub-tapes: one choice of the rapidcheck tape is expanded deterministically (splitmix64) into a short
+  // virtual tape that is decoded with the same Tape API.  0 expands to all zeros ("simplest").  This keeps the
+  // real tape short (about n + 60 choices instead of 25 n): shrinking a failing case otherwise costs > 10^5
+  // forked evaluations.  The result is still a pure function of the tape (no other source of randomness).
+  // ==========================================================================================
+  struct SubTape
+  {
+    std::vector<uint32_t> v; Tape t;
+    SubTape(uint32_t seed, size_t len, int size) : v(len, 0u), t(v, size)
+    {
+      if(seed != 0u) { uint64_t x = 0x9e3779b97f4a7c15ull * (uint64_t(seed) + 1ull); for(auto& e : v) { x += 0x9e3779b97f4a7c15ull; uint64_t z = x; z = (z ^ (z >> 30)) * 0xbf58476d1ce4e5b9ull; z = (z ^ (z >> 27)) * 0x94d049bb133111ebull; z ^= (z >> 31); e = uint32_t(z >> 16); } }
+    }
+    SubTape(const SubTape&) = delete;
+  };
+
+  // ==========================================================================================
   // dense helpers (long double)
   // ==========================================================================================
   struct DenseLU
@@ -145,14 +161,15 @@ namespace c07
     s.rows.assign((size_t)n, {});
     for(int i = 0; i < n; ++i)
     {
-      int k = t.range(0, maxk);
+      SubTape rt(t.raw(), 20, t.size); Tape& r = rt.t;      // one choice per row (0: no off-diagonal entries)
+      int k = r.range(0, maxk);
       for(int q = 0; q < k; ++q)
       {
-        int j = t.range(0, n - 1); double v = offval(t, vcls);
+        int j = r.range(0, n - 1); double v = offval(r, vcls);
         if(j == i) continue;
         s.rows[(size_t)i][j] = v;
         if(sym) s.rows[(size_t)j][i] = v;
-        else if(t.flag(1, 2)) s.rows[(size_t)j][i] = offval(t, vcls);   // structurally symmetric partner
+        else if(r.flag(1, 2)) s.rows[(size_t)j][i] = offval(r, vcls);   // structurally symmetric partner
       }
     }
     static const double margins[4] = { 1.0, 0.25, 0.05, 4.0 };
@@ -250,7 +267,8 @@ namespace c07
     {
       int m = std::min(bs, n - b0);
       std::vector<LD> v((size_t)m); LD vv = 0;
-      for(int i = 0; i < m; ++i) { v[(size_t)i] = (LD)t.real(1); vv += v[(size_t)i] * v[(size_t)i]; }
+      SubTape bt(t.raw(), (size_t)m, t.size);
+      for(int i = 0; i < m; ++i) { v[(size_t)i] = (LD)bt.t.real(1); vv += v[(size_t)i] * v[(size_t)i]; }
       if(vv == 0.0L) { v[0] = 1.0L; vv = 1.0L; }
       LD vlv = 0; for(int i = 0; i < m; ++i) vlv += v[(size_t)i] * v[(size_t)i] * lam[(size_t)(b0 + i)];
       for(int i = 0; i < m; ++i) for(int j = i; j < m; ++j)
@@ -275,10 +293,11 @@ namespace c07
     // skew entries bounded so that ||K||_inf <= 3 * lmin keeps sigma/mu <= kcap
     std::vector<double> ks((size_t)n, 0.0);
     int cnt = n > 1 ? t.range(0, 2 * n) : 0;
+    SubTape kt(t.raw(), (size_t)(3 * cnt + 1), t.size); Tape& r = kt.t;
     for(int q = 0; q < cnt; ++q)
     {
-      int i = t.range(0, n - 1), j = t.range(0, n - 1); if(i == j) continue;
-      double v = offval(t, s.integer ? 0 : 1) * (s.integer ? 1.0 : lmin * 0.5);
+      int i = r.range(0, n - 1), j = r.range(0, n - 1); if(i == j) { r.raw(); continue; }
+      double v = offval(r, s.integer ? 0 : 1) * (s.integer ? 1.0 : lmin * 0.5);
       if(s.integer && (ks[(size_t)i] + std::fabs(v) > 3.0 * lmin || ks[(size_t)j] + std::fabs(v) > 3.0 * lmin)) continue;
       if(!s.integer && (ks[(size_t)i] + std::fabs(v) > 3.0 * lmin || ks[(size_t)j] + std::fabs(v) > 3.0 * lmin)) continue;
       double aij = s.rows[(size_t)i].count(j) ? s.rows[(size_t)i][j] : 0.0, aji = s.rows[(size_t)j].count(i) ? s.rows[(size_t)j][i] : 0.0;
